@@ -505,6 +505,7 @@ func TestVerifC02(t *testing.T) {
 				q.Name = vfMixCase(rnd, vfPick(rnd, plXNames)) + "."
 			}
 			q.Answer = c02Answer(rnd, q.Name, q.QType)
+			delete(q.Extra, strings.ToLower(q.Name))
 			for n := range q.Extra {
 				if q.Extra[n] != nil {
 					q.Extra[n] = c02Answer(rnd, n, q.QType)
